@@ -3,3 +3,4 @@ import Proofs.ImplV2
 import Proofs.Waveform
 import Proofs.Beatgrid
 import Proofs.ImplV2Lists
+import Proofs.ZlibLoop
